@@ -207,6 +207,27 @@ func Spec(big int) []Node {
 	} {
 		ns = append(ns, n)
 	}
+	// a tree with symbolic links whose targets are absolute paths into the tree itself ({ROOT} = the fixture root)
+	for _, n := range []Node{
+		{Rel: "abslinks", Kind: "dir", Mode: 0o755},
+		{Rel: "abslinks/releases", Kind: "dir", Mode: 0o755},
+		{Rel: "abslinks/releases/v1", Kind: "file", Mode: 0o644, Data: text("v1", 41)},
+		{Rel: "abslinks/current", Kind: "symlink", Target: "{ROOT}/abslinks/releases/v1"},
+		{Rel: "abslinks/self", Kind: "symlink", Target: "{ROOT}/abslinks"},
+	} {
+		ns = append(ns, n)
+	}
+	// a directory in which a symbolic link sorts before (and between) regular files
+	for _, n := range []Node{
+		{Rel: "mixed", Kind: "dir", Mode: 0o755},
+		{Rel: "mixed/0link.conf", Kind: "symlink", Target: "b.conf"},
+		{Rel: "mixed/a.conf", Kind: "file", Mode: 0o644, Data: text("mixed a", 31)},
+		{Rel: "mixed/b.conf", Kind: "file", Mode: 0o640, Data: text("mixed b", 32)},
+		{Rel: "mixed/m-link.conf", Kind: "symlink", Target: "/etc/elsewhere.conf"},
+		{Rel: "mixed/z.conf", Kind: "file", Mode: 0o600, Data: text("mixed z", 33)},
+	} {
+		ns = append(ns, n)
+	}
 	// a changelog with an entry that has no date (and one without packager)
 	ns = append(ns, Node{Rel: "changelog-undated.yaml", Kind: "file", Mode: 0o644, Data: []byte(`- semver: "1.1.0"
   date: "2009-12-08T22:00:00Z"
@@ -297,6 +318,7 @@ func Materialize(root string, nodes []Node) (*Tree, error) {
 			if err := os.MkdirAll(filepath.Dir(p), 0o755); err != nil {
 				return nil, err
 			}
+			n.Target = strings.ReplaceAll(n.Target, "{ROOT}", root)
 			if err := os.Symlink(n.Target, p); err != nil {
 				return nil, err
 			}
